@@ -391,6 +391,18 @@ def r08_11(ctx):
            'sends the result and goes on to take further jobs (terminate_job / hard time limit / operator TERM has no '
            'effect until SIGKILL, which may hit it while it holds the task pipe lock)',
            path=None if not again else cfg.path(starts, [again[0].id], block_nodes=tests))
+    # ... and the look has consequences: from the "exit was requested" outcome of every look that lies behind the task
+    # call, the next wait_for_job() is not reachable (the worker leaves by raise / return)
+    behind = cfg.reach(starts, include_src=True)
+    yes = [b for (a, b, l) in q.outcome_edges(fi, flag, True) if a in behind]
+    q.need(yes, 'Worker.workloop: no exit-requested outcome behind the task call')
+    r2 = cfg.reach(yes, include_src=True)
+    goes_on = [t for t in takes if t.id in r2]
+    ctx.ob('R08.11', 'workloop:exit-requested-means-no-further-job', not goes_on, fi, goes_on[0] if goes_on else None,
+           'with the exit-requested flag set the worker leaves the loop (raise / return), it never reaches the next '
+           'wait_for_job()' if not goes_on else
+           'the flag is looked at but with it set the worker still goes on to wait for the next job',
+           path=None if not goes_on else cfg.path(yes, [goes_on[0].id]))
 
 
 
@@ -436,6 +448,12 @@ def r08_14(ctx):
 
 
 def run(ctx):
+    from .sweep import r08_15 as _r08_15, r07_15 as _r07_15b
+    _r08_15(ctx)
+    _r07_15b(ctx, 'R08.16')
+    from .sweep import r08_17 as _r08_17, r07_16 as _r07_16b
+    _r08_17(ctx)
+    _r07_16b(ctx, 'R08.18')
     r08_14(ctx)
     # a worker interrupted inside a task has sent no result for it: the counter its exit wait compares with the parent's
     # credit counts results sent, not jobs taken (borrowed from C03) -- otherwise the signalled worker sits out 30 s
